@@ -1530,7 +1530,7 @@ func (h *harness) runMain() {
 	h.store = flyt.NewSharedStore()
 	base := context.Background()
 	deadline := time.Now().Add(time.Duration(sc.Ctx.DeadlineUs) * time.Microsecond)
-	if sc.Ctx.Kind == "cancel" && sc.Ctx.DeadlineUs > 0 {
+	if (sc.Ctx.Kind == "cancel" || sc.Ctx.Kind == "") && sc.Ctx.DeadlineUs > 0 {
 		// a context that is cancelled explicitly and also carries a (later) deadline
 		var stop context.CancelFunc
 		base, stop = context.WithDeadline(base, deadline)
